@@ -1,5 +1,5 @@
 SPECIFICATION Spec
 CONSTANTS N = 16
- Extra = {39, 40, 41, 42, 99, 100, 101}
+ Extra = {21, 39, 40, 41, 42, 99, 100, 101}
  FullShifts = TRUE
 INVARIANT Emit
